@@ -19,7 +19,8 @@ META = {
     "text": "For every pre-state (open, shutdown_write, closed, peer EOF, peer CLOSE, transport loss) x {sendall, "
             "sendall_stderr} x size {1, W+1, 3P} x timeout {None, 0.0, 2.0} x window {ample, reopened by the reader, never "
             "reopened} and every placement of one disturbing event (peer CLOSE, concurrent shutdown_write/close, "
-            "transport loss) at each quiescent point of the call: the call terminates; it returns None only if "
+            "transport loss) at each quiescent point of the call (payload bytes; on an open channel also non-ASCII text whose "
+            "encoding has that size): the call terminates; it returns None only if "
             "exactly len(s) data bytes went to the transport for it; otherwise it raises socket.error/timeout.",
     "note": "ChannelPair (real Channel/Transport._send_user_message, harness-side dispatch); blocking mode with a window "
             "that never reopens is excluded (legitimate blocking); virtual time",
@@ -36,6 +37,10 @@ STEP_BUDGET = 60000
 def make_body(scn):
     pre, call, size, timeout, window, event = scn[:6]
     two = len(scn) > 6 and scn[6]
+    # payload kind "text": a str with non-ASCII characters whose UTF-8 encoding is exactly `size` bytes (the
+    # channel API accepts text; lengths the channel reports are byte counts, positions in a str are characters)
+    text = len(scn) > 7 and scn[7] == "text"
+    payload = ("\u00e9" * (size // 2) + "x" * (size % 2)) if text else b"d" * size
 
     def body(s):
         cp = ChanPair(wa=W, pa=P, wb=W, pb=P)
@@ -69,7 +74,7 @@ def make_body(scn):
         def caller():
             fn = a.sendall if call == "sendall" else a.sendall_stderr
             try:
-                out["ret"] = fn(b"d" * size)
+                out["ret"] = fn(payload)
                 out["kind"] = "returned"
             except socket.timeout:
                 out["kind"] = "timeout"
@@ -265,6 +270,8 @@ def scenarios(tier):
                             continue
                         for ev in events:
                             out.append((pre, call, size, timeout, window, ev))
+                        if pre == "open" and timeout in (None, 2.0) and window in ("ample", "reader"):
+                            out.append((pre, call, size, timeout, window, None, False, "text"))
                         # two application threads blocked on the same exhausted window (one per stream)
                         if pre == "open" and window == "reader" and size == W + 1 and timeout in (None, 2.0):
                             out.append((pre, call, size, timeout, window, None, True))
